@@ -207,7 +207,21 @@ def _name_order(gl, vp):
     if len(fl.returns) != 1:
         return False, "get_linear_equiv_units has %d returns" % len(fl.returns)
     d = fl.returns[0][1].value
-    d = A.inline_temporaries(d, fl.returns[0][1], gl)
+    if isinstance(d, ast.Name):
+        # D = {'K': ..}; for i, name in enumerate(V): D[name] = ..; return D   -- the same insertion order as {'K': .., **{name: .. for ..}}
+        ds = A.reaching_binding_stmt(d.id, fl.returns[0][1])
+        blk = A.block_of(ds) if ds is not None else None
+        if ds is not None and isinstance(ds.value, ast.Dict) and len(ds.value.keys) == 1 and blk:
+            p_, f_, lst, i_ = blk
+            nxt = lst[i_ + 1] if i_ + 1 < len(lst) else None
+            others = [s_ for s_ in A.walk_local(gl) if isinstance(s_, (ast.Assign, ast.AugAssign)) and s_ is not ds and d.id in A.unparse(s_.targets[0] if isinstance(s_, ast.Assign) else s_.target)]
+            if isinstance(nxt, ast.For) and len(nxt.body) == 1 and isinstance(nxt.body[0], ast.Assign) and isinstance(nxt.body[0].targets[0], ast.Subscript) \
+                    and canon(nxt.body[0].targets[0].value) == d.id and others == [nxt.body[0]] and not nxt.orelse:
+                comp = ast.DictComp(key=nxt.body[0].targets[0].slice, value=nxt.body[0].value, generators=[ast.comprehension(target=nxt.target, iter=nxt.iter, ifs=[], is_async=0)])
+                d = ast.Dict(keys=list(ds.value.keys) + [None], values=list(ds.value.values) + [comp])
+                ast.fix_missing_locations(d)
+    if not isinstance(d, ast.Dict):
+        d = A.inline_temporaries(d, fl.returns[0][1], gl)
     if not (isinstance(d, ast.Dict) and len(d.keys) == 2 and A.str_const(d.keys[0]) == "K" and d.keys[1] is None):
         return False, "returned mapping is `%s`: K is not the first key followed by the trend names" % A.unparse(d)[:80]
     c = d.values[1]
